@@ -437,6 +437,18 @@ def gen_long_literal(rng):
     return samples
 
 
+def gen_shared_under_root(rng):
+    """one root whose nested classes share a child model (the nested layout hoists it into the root and refers to it by an
+    absolute 'Root.Child' path), under root names the generator has to convert"""
+    name = rng.choice(ROOT_NAMES + ["Route-2", "2fast", "Données", "my root"])
+    pt = lambda j: {"x": j, "y": j + .5}
+    docs = [{"left": {"point": pt(1), "a": 1}, "right": {"point": pt(2), "b": "x"},
+             "deep": {"inner": {"point": pt(3), "c": [1]}, "d": 1.5}}]
+    if rng.random() < 0.4:
+        docs.append({"left": {"point": pt(4), "a": 2}, "right": {"point": pt(5), "b": "y"}, "deep": {"inner": {"point": pt(6), "c": []}, "d": 2}})
+    return name, docs
+
+
 def gen_hidden_union_merge(rng):
     """two similar models whose shared field is a required container in one and, in the other (a list of objects), a union
     of several kinds that is also missing once: after the merge the field is a union with an Optional[Union[...]] member,
